@@ -587,6 +587,9 @@ static void cc1(void) {
     return;
   }
 
+  // Adjacent string literals are concatenated only now so that -E
+  // prints each of them.
+  join_adjacent_string_literals(tok);
   Obj *prog = parse(tok);
 
   // Open a temporary output buffer.
